@@ -3,7 +3,7 @@
 From Coq Require Import List String Bool Arith ZArith Lia.
 From Thunder Require Import Lib.Json Federation.Merge Federation.MergeProofsBase Federation.Normalize Federation.Planner
   Federation.Executor Federation.ExecutorProofs Federation.NormalizeProofs Federation.PlannerProofs Federation.FedBase
-  Federation.FedSem Federation.FedPlanSem Federation.Premises Federation.NormSem.
+  Federation.FedSem Federation.FedPlanSem Federation.Premises Federation.NormSem Federation.PlannerTotal.
 Import ListNotations.
 Open Scope string_scope.
 Open Scope list_scope.
@@ -75,19 +75,21 @@ Proof.
 Qed.
 
 (** ** the main theorem *)
-Theorem fed_transparent : forall w g pick q flat p,
-  (forall l s, pick l = Some s -> In s l) ->
-  fed_ok g = true -> fed_ok2 g = true ->
+Definition pick_total (pick : list string -> option string) : Prop := forall l, l <> [] -> exists s, pick l = Some s.
+
+Theorem fed_transparent : forall w g pick q flat,
+  (forall l s, pick l = Some s -> In s l) -> pick_total pick ->
+  fed_ok g = true -> fed_ok2 g = true -> sel_ok g = true ->
   world_ok w g -> (forall ty id f ak, scalars_ok (w_value w ty id f ak)) ->
   (forall ty id f ak owners, find_gfield g ty f = Some (RScalar, owners) -> sval (w_value w ty id f ak)) ->
   forallb qwf q = true ->
   flatten (2 * depth_list q + 4) false g (RObj "Query") (Some q) = Some (Some flat) ->
   flat_ok g "Query" flat = true ->
-  plan_root g pick (2 * depth_list q + 4) flat = Some p ->
   exists a r, fed_exec w g pick false true q = Some a /\
               eval_ref w g true (2 * depth_list q + 4) "Query" 0%Z q = Some r /\ jeq a r.
 Proof.
-  intros w g pick q flat p Hpick Hok Hok2 Hw Hsc Hsv Hq Hfl Hflat Hplan.
+  intros w g pick q flat Hpick Hpt Hok Hok2 Hsel Hw Hsc Hsv Hq Hfl Hflat.
+  destruct (plan_root_total_flatten g pick true false _ q flat Hpick Hpt Hsel Hfl Hflat) as [p Hplan].
   destruct (root_sem w g pick Hpick Hok Hok2 Hw Hsc _ flat p Hplan Hflat) as [L [Hex Hsim]].
   assert (Hqs : Forall qwfP q) by (apply Forall_forall; intros x Hx; eapply forallb_forall in Hq; eauto).
   destruct (norm_sem w g Hw Hsv _ "Query" 0%Z q flat Hfl Hqs Hflat) as [r [Hr Hj]].
@@ -98,37 +100,34 @@ Qed.
 
 (** the same on a case of the correspondence check: one boolean premise *)
 Theorem fed_transparent_on_case : forall g calls orgs pick q,
-  (forall l s, pick l = Some s -> In s l) -> premises g calls pick q = true ->
+  (forall l s, pick l = Some s -> In s l) -> pick_total pick -> premises g calls pick q = true ->
   exists a r, fed_exec (world_of calls orgs) g pick false true q = Some a /\
               eval_ref (world_of calls orgs) g true (2 * depth_list q + 4) "Query" 0%Z q = Some r /\ jeq a r.
 Proof.
-  intros g calls orgs pick q Hpick H. unfold premises in H. cbv zeta in H.
+  intros g calls orgs pick q Hpick Hpt H. unfold premises in H. cbv zeta in H.
   destruct (flatten (2 * depth_list q + 4) false g (RObj "Query") (Some q)) as [[flat|]|] eqn:Hfl;
     try (rewrite andb_false_r in H; discriminate).
   apply andb_prop in H as [H H5]. apply andb_prop in H as [H H4]. apply andb_prop in H as [H H3].
-  apply andb_prop in H as [H1 H2]. apply andb_prop in H5 as [H5 H6].
-  destruct (plan_root g pick (2 * depth_list q + 4) flat) as [p|] eqn:Hp; [|discriminate].
+  apply andb_prop in H as [H Hs]. apply andb_prop in H as [H1 H2].
   destruct (calls_ok_world g calls orgs H3) as [Hw [Hsc Hsv]].
-  exact (fed_transparent _ g pick q flat p Hpick H1 H2 Hw Hsc Hsv H4 Hfl H5 Hp).
+  exact (fed_transparent _ g pick q flat Hpick Hpt H1 H2 Hs Hw Hsc Hsv H4 Hfl H5).
 Qed.
 
 (** the answer does not depend on how the choice among several services that serve a field is resolved *)
-Theorem fed_choice_independent : forall w g pick1 pick2 q flat p1 p2,
+Theorem fed_choice_independent : forall w g pick1 pick2 q flat,
   (forall l s, pick1 l = Some s -> In s l) -> (forall l s, pick2 l = Some s -> In s l) ->
-  fed_ok g = true -> fed_ok2 g = true ->
+  pick_total pick1 -> pick_total pick2 ->
+  fed_ok g = true -> fed_ok2 g = true -> sel_ok g = true ->
   world_ok w g -> (forall ty id f ak, scalars_ok (w_value w ty id f ak)) ->
   (forall ty id f ak owners, find_gfield g ty f = Some (RScalar, owners) -> sval (w_value w ty id f ak)) ->
   forallb qwf q = true ->
   flatten (2 * depth_list q + 4) false g (RObj "Query") (Some q) = Some (Some flat) ->
   flat_ok g "Query" flat = true ->
-  plan_root g pick1 (2 * depth_list q + 4) flat = Some p1 ->
-  plan_root g pick2 (2 * depth_list q + 4) flat = Some p2 ->
   exists a1 a2, fed_exec w g pick1 false true q = Some a1 /\ fed_exec w g pick2 false true q = Some a2 /\ jeq a1 a2.
 Proof.
-  intros w g pick1 pick2 q flat p1 p2 Hp1 Hp2 Hok Hok2 Hw Hsc Hsv Hq Hfl Hflat Hplan1 Hplan2.
-  destruct (fed_transparent w g pick1 q flat p1 Hp1 Hok Hok2 Hw Hsc Hsv Hq Hfl Hflat Hplan1) as [a1 [r1 [A1 [R1 J1]]]].
-  destruct (fed_transparent w g pick2 q flat p2 Hp2 Hok Hok2 Hw Hsc Hsv Hq Hfl Hflat Hplan2) as [a2 [r2 [A2 [R2 J2]]]].
+  intros w g pick1 pick2 q flat Hp1 Hp2 Ht1 Ht2 Hok Hok2 Hsel Hw Hsc Hsv Hq Hfl Hflat.
+  destruct (fed_transparent w g pick1 q flat Hp1 Ht1 Hok Hok2 Hsel Hw Hsc Hsv Hq Hfl Hflat) as [a1 [r1 [A1 [R1 J1]]]].
+  destruct (fed_transparent w g pick2 q flat Hp2 Ht2 Hok Hok2 Hsel Hw Hsc Hsv Hq Hfl Hflat) as [a2 [r2 [A2 [R2 J2]]]].
   rewrite R1 in R2. inversion R2; subst r2.
   exists a1, a2. split; [exact A1 | split; [exact A2|]]. eapply jeq_trans; [exact J1 | apply jeq_sym; exact J2].
 Qed.
-
